@@ -1,6 +1,8 @@
 package c13
 
 import (
+	"strings"
+
 	"pgregory.net/rapid"
 )
 
@@ -74,8 +76,27 @@ func (r RtpSpec) Bytes() []byte {
 	return out
 }
 
+// payloadClass groups the payload kinds: the classes are what the evidence is read by, the kinds are the detail.
+func payloadClass(kind string) string {
+	kind = strings.TrimPrefix(kind, "burst-")
+	for _, p := range []string{"avc-fua", "avc-stapa", "avc-single", "hevc-fu", "hevc-ap", "hevc-single", "aac-au-fragment", "aac-headers-len", "aac-one-au", "aac-two-au", "aac-au-size", "raw"} {
+		if strings.HasPrefix(kind, p) {
+			return p + "*"
+		}
+	}
+	switch {
+	case strings.HasPrefix(kind, "avc-"):
+		return "avc-other-types"
+	case strings.HasPrefix(kind, "hevc-"):
+		return "hevc-other-types"
+	case strings.HasPrefix(kind, "aac-"):
+		return "aac-other"
+	}
+	return kind
+}
+
 func (r RtpSpec) labels() []string {
-	l := []string{"rtp:" + r.Kind}
+	l := []string{"rtp:" + r.Kind, "rtpclass:" + payloadClass(r.Kind)}
 	if r.Pad {
 		switch {
 		case r.PadCnt == 0:
